@@ -120,8 +120,39 @@ func registerExternals(m *Machine) {
 		if !isS {
 			return strconv.FormatFloat(a[0].(float64), fmtc, prec, bits)
 		}
-		// shortest-digit generation is not encoded: the text of a symbolic double is an
-		// arbitrary short string over the number alphabet (same double, same text)
+		// integer-valued doubles below 10^6 in magnitude (and NaN) are rendered exactly:
+		// 'g'/'f' with shortest precision print the decimal integer
+		if (fmtc == 'g' || fmtc == 'f') && prec == -1 && bits == 64 {
+			c := m.Ctx
+			f := sv.c.(float64)
+			if m.truth(mkSym(f != f, c.FpIsNaN(sv.t)), "format-nan") {
+				return "NaN"
+			}
+			isInt := c.And(c.FpCmp(sym.OFpEq, c.FpRound(sv.t, sym.RTZ), sv.t), c.FpCmp(sym.OFpLt, c.FpAbs(sv.t), c.FPC(1e6)))
+			if m.truth(mkSym(f == math.Trunc(f) && math.Abs(f) < 1e6, isInt), "format-small-int") {
+				m.Stubs["model:strconv.FormatFloat(integer)"]++
+				neg := m.truth(mkSym(math.Signbit(f), c.Or(c.FpCmp(sym.OFpLt, sv.t, c.FPC(0)), c.Eq(sv.t, c.FPC(math.Copysign(0, -1))))), "format-sign")
+				mag := c.FpToSBV(c.FpAbs(sv.t))
+				guards, bytes := c.DecimalCases(mag, 6)
+				am := uint64(math.Abs(f))
+				txt := strconv.FormatUint(am, 10)
+				k := len(txt)
+				for j := 0; j < len(guards); j++ {
+					// decide the digit count in canonical order
+					if m.truth(mkSym(j+1 == k, guards[j]), "format-digits") {
+						break
+					}
+				}
+				bs := append([]*sym.Term{}, bytes[k-1]...)
+				if neg {
+					txt = "-" + txt
+					bs = append([]*sym.Term{nil}, bs...)
+				}
+				return mkStr(txt, bs)
+			}
+		}
+		// shortest-digit generation is not encoded: the text of any other symbolic double
+		// is an arbitrary short string over the number alphabet (same double, same text)
 		m.Stubs["havoc:strconv.FormatFloat"]++
 		key := fmt.Sprintf("ff:%d", sv.t.ID)
 		memo, _ := m.Scratch["ffMemo"].(map[string]value)
@@ -328,7 +359,7 @@ func registerExternals(m *Machine) {
 	e["strings.LastIndex"] = strFn("strings.LastIndex", "", func(a []value) value { return int64(strings.LastIndex(a[0].(string), a[1].(string))) })
 	e["strings.TrimLeft"] = strFn("strings.TrimLeft", "", func(a []value) value { return strings.TrimLeft(a[0].(string), a[1].(string)) })
 	e["strings.TrimRight"] = strFn("strings.TrimRight", "", func(a []value) value { return strings.TrimRight(a[0].(string), a[1].(string)) })
-	e["strings.Trim"] = strFn("strings.Trim", "", func(a []value) value { return strings.Trim(a[0].(string), a[1].(string)) })
+	e["strings.Trim"] = strFn("strings.Trim", "vmTrim", func(a []value) value { return strings.Trim(a[0].(string), a[1].(string)) })
 	e["strings.TrimPrefix"] = strFn("strings.TrimPrefix", "", func(a []value) value { return strings.TrimPrefix(a[0].(string), a[1].(string)) })
 	e["strings.TrimSuffix"] = strFn("strings.TrimSuffix", "", func(a []value) value { return strings.TrimSuffix(a[0].(string), a[1].(string)) })
 	e["strings.Count"] = strFn("strings.Count", "", func(a []value) value { return int64(strings.Count(a[0].(string), a[1].(string))) })
